@@ -58,6 +58,7 @@ Conf_NodeCommittee == IsCC => LET m == CCM!NodeCommittee(obs.s, obs.i) IN
 
 Clauses == {"C19_SimRejectsWeakQuorum", "C19_SimRejectsWrongFields", "C19_SimAcceptsGenuine", "C19_SimDetectsDisagreement",
             "C19_CertchainCommittee", "Conf_Injected", "Conf_SimExact", "Conf_DisagreeScenario", "Conf_CertchainGenerates", "Conf_NodeCommittee"}
+PropClauses == Clauses \ {"Conf_Injected", "Conf_SimExact", "Conf_DisagreeScenario", "Conf_CertchainGenerates", "Conf_NodeCommittee"}
 Holds(x) == CASE x = "C19_SimRejectsWeakQuorum" -> C19_SimRejectsWeakQuorum [] x = "C19_SimRejectsWrongFields" -> C19_SimRejectsWrongFields
               [] x = "C19_SimAcceptsGenuine" -> C19_SimAcceptsGenuine [] x = "C19_SimDetectsDisagreement" -> C19_SimDetectsDisagreement
               [] x = "C19_CertchainCommittee" -> C19_CertchainCommittee [] x = "Conf_Injected" -> Conf_Injected
@@ -66,6 +67,8 @@ Holds(x) == CASE x = "C19_SimRejectsWeakQuorum" -> C19_SimRejectsWeakQuorum [] x
 TStep == /\ TNext
          /\ LET nb == {x \in Clauses : ~Holds(x)} IN
               /\ bad' = bad \cup {<<l - 1, x>> : x \in nb}
-              /\ (nb = {} \/ Cardinality(bad) > 40 \/ PrintT(<<"VERIF_BAD", l - 1, nb>>))
+              \* print at most ~40 failing lines, but never let conformance failures hide a property clause
+              /\ (nb = {} \/ (Cardinality(bad) > 40 /\ (nb \cap PropClauses = {} \/ Cardinality({b \in bad : b[2] \in PropClauses}) > 40))
+                          \/ \A x \in nb : PrintT(<<"VERIF_BAD", l - 1, {x}>>))      \* one short line per clause (TLC wraps long values)
 TSpec == TInit /\ [][TStep]_tvars
 =============================================================================
